@@ -168,7 +168,7 @@ def recursion(var, photo, photo_ok, zi, ck, rad, aug, forced=None):
 
 
 def energy_grid(pr, ks, tier, rng):
-    """per element: candidate energies (label, E); quick keeps 6 of them"""
+    """per element: candidate energies (label, E); quick keeps 8 of them"""
     Zs, Es, labs = [], [], []
     for k, Z in enumerate(pr.Z):
         cand = []
@@ -176,6 +176,7 @@ def energy_grid(pr, ks, tier, rng):
         for s, e in edges:
             cand.append((s + '-edge-', e * (1 - 1e-9)))
             cand.append((s + '-edge+', e * (1 + 1e-9)))
+            cand.append((s + '-edge=', e))                  # the very double EdgeEnergy returns
         srt = sorted(set(e for _, e in edges))
         for a, b in zip(srt[:-1], srt[1:]):
             cand.append(('mid', 0.5 * (a + b)))
@@ -183,6 +184,9 @@ def energy_grid(pr, ks, tier, rng):
         if srt:
             fixed.append(('1.1xK' if pr.edge_ok[k, 0] else '1.1xtop-edge', 1.1 * (pr.edge[k, 0] if pr.edge_ok[k, 0] else srt[-1])))
         fixed.append(('100keV', 100.0))
+        for s_ in (0, 3):                                   # E bit-equal to the K and the L3 edge: where the cascades of the L and M shells switch on
+            if pr.edge_ok[k, s_]:
+                fixed.append((SH[s_] + '-edge=', float(pr.edge[k, s_])))
         d = ks.get(int(Z))
         if d:
             for s in range(NS):
@@ -190,12 +194,13 @@ def energy_grid(pr, ks, tier, rng):
                     e = float(d['partial'][s][0])
                     cand.append((SH[s] + '-kissel-edge-', e * (1 - 1e-9)))
                     cand.append((SH[s] + '-kissel-edge+', e * (1 + 1e-9)))
+                    cand.append((SH[s] + '-kissel-edge=', e))
             if 0 in d['partial']:
                 top = float(np.exp(d['partial'][0][1][-1, 0]))
                 cand.append(('top-', top * (1 - 1e-9)))
                 cand.append(('top+', top * (1 + 1e-6)))
         if tier == 'quick':
-            n = max(0, 6 - len(fixed))
+            n = max(0, 8 - len(fixed))
             if len(cand) > n:
                 cand = [cand[j] for j in sorted(rng.choice(len(cand), n, replace=False))]
         else:
